@@ -7,7 +7,8 @@ open Pyemv Pyemv.Gen
 
 theorem kd_derive_visa_sm_sk (mk atc : Bytes) : Gen.kd.derive_visa_sm_sk mk atc = deriveVisaSmSk mk atc := by
   unfold Gen.kd.derive_visa_sm_sk deriveVisaSmSk
-  simp only [tools_xor, rep_flatten, zeros, tools_adjust, bind, Except.bind, pure, Except.pure]
+  try simp only [bind_pure]      -- `do let v ← e; pure v` is `e` (single-exit rewrites)
+  simp only [tools_xor, rep_flatten, zeros, tools_adjust, bind, Except.bind, pure, Except.pure, except_match_eta]
   repeat (first | rfl | split)
   all_goals first | (simp_all; done) | slice_forms
 
